@@ -236,3 +236,27 @@ for _c, _init in (('ProxyProtocolV1', None), ('ProxyProtocolV2', None), ('ProxyP
              ensures=['ncalls("EdgeHandler.handle") <= 1'],
              raises={'OSError': []},
              modifies=['sock.fetched', 'fresh'])
+
+
+# ---------------------------------------------------------------------------- parse_pp_line body (C18)
+# The call sites keep the assumed view above; here the real body is checked: whatever the line holds, the only
+# exception that can leave it is AssertionError (never IndexError from a short field list), the address family and
+# the two ports come from the validators, and an UNKNOWN header yields the unknown addresses.
+def _bytes_split(st, recv, args, kw):
+    """b.split(sep): a new list of at least one piece (the pieces themselves are opaque here)"""
+    ref = st.new_ref('list')
+    s = B.seq_fresh(st, z3.StringSort(), 'split')
+    st.assume(s.n >= 1)
+    st.list_store(ref, T.BYTES, s)
+    return Val(T.TList(T.BYTES), ref)
+
+
+calls.METHOD_MODELS[('bytes', 'split')] = _bytes_split
+contract('ProxyProtocolV1.parse_pp_line#body', qual='ProxyProtocolV1.parse_pp_line', module=M, props=['C18'],
+         params={'cls': 'Cls', 'line': 'Bytes'}, returns='Tuple[Addr, Addr]',
+         raises={'AssertionError': []},
+         checks=['ncalls("ProxyProtocolV1.__get_pp_port") == 0 or ncalls("ProxyProtocolV1.__get_pp_port") == 2',
+                 # ports are validated only after the family was accepted and exactly five fields were found
+                 'implies(ncalls("ProxyProtocolV1.__get_pp_port") == 2, ncalls("ProxyProtocolV1.__get_pp_family") == 1 '
+                 '        and ncalls("ProxyProtocolV1.__get_pp_ip") == 2)'],
+         modifies=['fresh'], locals={'parts': 'List[Bytes]'})
